@@ -165,6 +165,7 @@ type caseSpec struct {
 	WCloser  bool    `json:"wcloser"`
 	Buf      int     `json:"buf"`
 	Path     string  `json:"path"` // read | readall | copy
+	Stop     bool    `json:"stop"` // tee: Stop() is called after the consumption and before Close()
 }
 
 func mkData(total int) []byte {
@@ -201,6 +202,11 @@ func run(b *tv.Batch, cs caseSpec) int {
 		w = streams.LimitReadCloser(readers[0].(io.ReadCloser), int64(cs.N))
 	case "multi":
 		w = streams.NewMultiReaderCloser(readers...)
+		// the caller's slice stays the caller's: reuse it for something else straight away (a wrapper that kept the
+		// slice instead of copying it would now read from - and close - the wrong readers)
+		for i := range readers {
+			readers[i] = bytes.NewReader(bytes.Repeat([]byte{0xEE}, 8))
+		}
 	case "tee":
 		rw := &recWriter{b: b, want: all}
 		var ww io.Writer = rw
@@ -245,6 +251,10 @@ func run(b *tv.Batch, cs caseSpec) int {
 		var dst bytes.Buffer
 		n, err := io.Copy(&dst, w)
 		b.Ev("writeto", tv.M{"n": int(n), "err": classify(err), "ok": int(n) == dst.Len() && check(dst.Bytes())})
+	}
+	if t, ok := w.(*streams.TeeReadCloser); ok && cs.Stop {
+		t.Stop()
+		b.Ev("stop", nil)
 	}
 	w.Close()
 	b.Ev("close", nil)
@@ -392,6 +402,9 @@ func TestCheck(t *testing.T) {
 					for _, bf := range []int{1, 3, l + 1} {
 						for _, cl := range []bool{true, false} {
 							add(caseSpec{Kind: "tee", Lens: []int{l}, Chunks: [][]int{ch}, Styles: []style{st}, Closable: []bool{cl}, WCloser: cl, Buf: bf, Path: p})
+							if bf == 3 {
+								add(caseSpec{Kind: "tee", Lens: []int{l}, Chunks: [][]int{ch}, Styles: []style{st}, Closable: []bool{cl}, WCloser: cl, Buf: bf, Path: p, Stop: true})
+							}
 						}
 						if p != "read" {
 							break
